@@ -487,106 +487,122 @@ func c10Crash(t *testing.T, r *verifkit.Run, replaying bool, replayIn verifkreq.
 			defer wg.Done()
 			o := &outs[w]
 			o.stages = make([]byte, len(shards[w]))
-			inPath := filepath.Join(dir, fmt.Sprintf("in-%d.bin", w))
-			if o.err = c10WriteInputs(inPath, shards[w]); o.err != nil {
-				return
-			}
-			start := 0
-			for attempt := 0; start < len(shards[w]); attempt++ {
-				if attempt > 2000 {
-					o.err = fmt.Errorf("shard %d: more than 2000 child restarts", w)
+			// the shard is handed to the children in chunks: a restart (after a slow input or a death) then re-reads a
+			// small file instead of the whole shard
+			const chunkSize = 4000
+			attempt := 0
+			for cb := 0; cb < len(shards[w]); cb += chunkSize {
+				ce := min(cb+chunkSize, len(shards[w]))
+				chunk := shards[w][cb:ce]
+				inPath := filepath.Join(dir, fmt.Sprintf("in-%d-%d.bin", w, cb))
+				if o.err = c10WriteInputs(inPath, chunk); o.err != nil {
 					return
 				}
-				base := filepath.Join(dir, fmt.Sprintf("child-%d-%d", w, attempt))
-				lf, err := os.Create(base + ".log")
-				if err != nil {
-					o.err = err
-					return
-				}
-				cmd := exec.Command(os.Args[0], "-test.run=^TestVerifC10Child$", "-test.timeout=60m")
-				cmd.Env = append(os.Environ(), "C10_CHILD_IN="+inPath, fmt.Sprintf("C10_CHILD_START=%d", start), "C10_CHILD_BASE="+base)
-				cmd.Stdout, cmd.Stderr = lf, lf
-				if err := cmd.Start(); err != nil {
-					o.err = err
-					return
-				}
-				// stall watchdog (budget only, never a verdict): a child that logs no new index for stallAfter is
-				// killed and the input it was on is recorded as slow and skipped
-				exited := make(chan struct{})
-				var stalled atomic.Bool
-				go func() {
-					lastSize, lastChange := int64(-1), time.Now()
-					tick := time.NewTicker(500 * time.Millisecond)
-					defer tick.Stop()
-					for {
-						select {
-						case <-exited:
-							return
-						case <-tick.C:
+				start := 0
+				for ; start < len(chunk); attempt++ {
+					if attempt > 5000 {
+						o.err = fmt.Errorf("shard %d: more than 5000 child restarts", w)
+						return
+					}
+					base := filepath.Join(dir, fmt.Sprintf("child-%d-%d", w, attempt))
+					lf, err := os.Create(base + ".log")
+					if err != nil {
+						o.err = err
+						return
+					}
+					cmd := exec.Command(os.Args[0], "-test.run=^TestVerifC10Child$", "-test.timeout=60m")
+					cmd.Env = append(os.Environ(), "C10_CHILD_IN="+inPath, fmt.Sprintf("C10_CHILD_START=%d", start), "C10_CHILD_BASE="+base)
+					cmd.Stdout, cmd.Stderr = lf, lf
+					if err := cmd.Start(); err != nil {
+						o.err = err
+						return
+					}
+					// stall watchdog (budget only, never a verdict): a child that logs no new index for stallAfter is
+					// killed and the input it was on is recorded as slow and skipped
+					exited := make(chan struct{})
+					var stalled atomic.Bool
+					go func() {
+						lastSize, lastChange := int64(-1), time.Now()
+						tick := time.NewTicker(500 * time.Millisecond)
+						defer tick.Stop()
+						for {
+							select {
+							case <-exited:
+								return
+							case <-tick.C:
+							}
+							var sz int64
+							if st, err := os.Stat(base + ".progress"); err == nil {
+								sz = st.Size()
+							}
+							if sz != lastSize {
+								lastSize, lastChange = sz, time.Now()
+							} else if time.Since(lastChange) > stallAfter {
+								stalled.Store(true)
+								_ = cmd.Process.Kill()
+								return
+							}
 						}
-						var sz int64
-						if st, err := os.Stat(base + ".progress"); err == nil {
-							sz = st.Size()
-						}
-						if sz != lastSize {
-							lastSize, lastChange = sz, time.Now()
-						} else if time.Since(lastChange) > stallAfter {
-							stalled.Store(true)
-							_ = cmd.Process.Kill()
-							return
+					}()
+					runErr := cmd.Wait()
+					close(exited)
+					lf.Close()
+					// whatever the child managed to record is kept
+					if sb, err := os.ReadFile(base + ".stages"); err == nil {
+						copy(o.stages[cb+start:ce], sb)
+					}
+					if eb, err := os.ReadFile(base + ".events"); err == nil {
+						for _, line := range bytes.Split(eb, []byte{'\n'}) {
+							var e c10ChildPanic
+							if len(line) > 0 && json.Unmarshal(line, &e) == nil {
+								e.Index += cb // chunk-local -> shard-local
+								o.events = append(o.events, e)
+							}
 						}
 					}
-				}()
-				runErr := cmd.Wait()
-				close(exited)
-				lf.Close()
-				// whatever the child managed to record is kept
-				if sb, err := os.ReadFile(base + ".stages"); err == nil {
-					copy(o.stages[start:], sb)
-				}
-				if eb, err := os.ReadFile(base + ".events"); err == nil {
-					for _, line := range bytes.Split(eb, []byte{'\n'}) {
-						var e c10ChildPanic
-						if len(line) > 0 && json.Unmarshal(line, &e) == nil {
-							o.events = append(o.events, e)
+					if _, err := os.Stat(base + ".done"); err == nil {
+						attempt++
+						break
+					}
+					// the child died: which input was it on?
+					pb, _ := os.ReadFile(base + ".progress")
+					if len(pb) < 4 {
+						o.err = fmt.Errorf("shard %d: child failed before the first input (%v); see %s.log", w, runErr, base)
+						return
+					}
+					lastLocal := int(binary.BigEndian.Uint32(pb[len(pb)-4:]))
+					if lastLocal >= len(chunk) {
+						o.err = fmt.Errorf("shard %d: progress file names input %d of a %d-input chunk", w, lastLocal, len(chunk))
+						return
+					}
+					last := cb + lastLocal
+					logb, _ := os.ReadFile(base + ".log")
+					tail := string(logb)
+					if len(tail) > 3000 {
+						tail = tail[:3000]
+					}
+					rec := map[string]any{"corpus_index": index[w][last], "kind": shards[w][last].Kind, "input_hex": fmt.Sprintf("%x", c10Clip(shards[w][last].Bytes, 4096)),
+						"chunk_seed": fmt.Sprint(shards[w][last].Chunk), "exit": fmt.Sprint(runErr), "child_output": tail}
+					if _, err := os.Stat(base + ".slow"); err == nil {
+						o.slow++
+						if len(o.slowSamples) < 3 {
+							o.slowSamples = append(o.slowSamples, rec)
 						}
+						o.stages[last] = c10StSlow | 0x80
+						start = lastLocal + 1
+						continue
 					}
-				}
-				if _, err := os.Stat(base + ".done"); err == nil {
-					break
-				}
-				// the child died: which input was it on?
-				pb, _ := os.ReadFile(base + ".progress")
-				if len(pb) < 4 {
-					o.err = fmt.Errorf("shard %d: child failed before the first input (%v); see %s.log", w, runErr, base)
-					return
-				}
-				last := int(binary.BigEndian.Uint32(pb[len(pb)-4:]))
-				logb, _ := os.ReadFile(base + ".log")
-				tail := string(logb)
-				if len(tail) > 3000 {
-					tail = tail[:3000]
-				}
-				rec := map[string]any{"corpus_index": index[w][last], "kind": shards[w][last].Kind, "input_hex": fmt.Sprintf("%x", c10Clip(shards[w][last].Bytes, 4096)),
-					"chunk_seed": fmt.Sprint(shards[w][last].Chunk), "exit": fmt.Sprint(runErr), "child_output": tail}
-				if _, err := os.Stat(base + ".slow"); err == nil {
-					o.slow++
-					if len(o.slowSamples) < 3 {
-						o.slowSamples = append(o.slowSamples, rec)
+					if stalled.Load() {
+						o.stalls = append(o.stalls, rec)
+					} else if verifkreq.DeclaredLen(shards[w][last].Bytes) >= 128<<20 {
+						o.obs = append(o.obs, rec)
+					} else {
+						o.deaths = append(o.deaths, rec)
 					}
-					o.stages[last] = c10StSlow | 0x80
-					start = last + 1
-					continue
+					o.stages[last] = c10StPanic
+					start = lastLocal + 1
 				}
-				if stalled.Load() {
-					o.stalls = append(o.stalls, rec)
-				} else if verifkreq.DeclaredLen(shards[w][last].Bytes) >= 128<<20 {
-					o.obs = append(o.obs, rec)
-				} else {
-					o.deaths = append(o.deaths, rec)
-				}
-				o.stages[last] = c10StPanic
-				start = last + 1
+				os.Remove(inPath)
 			}
 		}(w)
 	}
